@@ -409,6 +409,36 @@ func (s *Scope) seriesCoversWindow(e ast.Expr, pos token.Pos, depth int) (bool, 
 		case strings.HasSuffix(nm, "trigger.RecordsToColumnSeries"):
 			return false, "only the just-written records"
 		}
+		// a producer that was extracted into a helper: every value the helper returns must cover
+		// the window
+		if f := Callee(s.Info, x); f != nil {
+			if h := s.P.ByObj[f]; h != nil && h.Decl.Body != nil && !baselineFuncs[h.Key] && h.Pkg == s.Pkg {
+				hs := s.P.ScopeOf(h)
+				all, any := true, false
+				why := ""
+				walkAll(h.Decl.Body, func(m ast.Node) bool {
+					if _, lit := m.(*ast.FuncLit); lit {
+						return false
+					}
+					if rs, ok := m.(*ast.ReturnStmt); ok && len(rs.Results) >= 1 {
+						if tv, ok := hs.Info.Types[rs.Results[0]]; ok && tv.IsNil() {
+							return true
+						}
+						any = true
+						ok2, w := hs.seriesCoversWindow(rs.Results[0], rs.Pos(), depth+1)
+						if !ok2 {
+							all, why = false, w
+						} else if why == "" {
+							why = w
+						}
+					}
+					return true
+				})
+				if any {
+					return all, "helper " + shortCallee(h.Key) + ": " + why
+				}
+			}
+		}
 		return false, "unrecognised producer " + nm
 	case *ast.IndexExpr:
 		return s.seriesCoversWindow(x.X, pos, depth+1)
